@@ -1,6 +1,6 @@
 """C09 -- writing and reading back any bound preserves its behaviour."""
 from ..persist import (persist_classes, rule_P1_P2, rule_P3, rule_P4_bound, rule_P5,
-                       rule_P7, rule_P8, rule_P9)
+                       rule_P7, rule_P8, rule_P9, rule_P10)
 
 LEVEL_TEXT = ('Static agreement of the writer, updater and reader tables extracted from the '
               'HDF5 code of the 8 persistable classes, plus definite-assignment analysis of '
@@ -22,6 +22,7 @@ def run(ctx):
         rule_P5(ctx, cls.name, r, obj)
         rule_P7(ctx, cls, w, r)
         rule_P9(ctx, r, obj)
+        rule_P10(ctx, cls, r, obj)
         if u is not None:
             rule_P4_bound(ctx, cls)
     rule_P8(ctx)
